@@ -24,6 +24,12 @@ MCDivisors == [jj \in 0..6 |->
 \* significances +-0.25, +-0.5, +-1, +-2, +-5 in quarter units
 MCSigs == Signed({1, 2, 4, 8, 20})
 
+\* decimal significances +-0.05, +-0.1, +-0.2, +-0.3, +-0.35, +-1.5 in twentieths
+\* (Rounding_dec.cfg, SigDen = 20): a decimal number is a multiple of them
+\* although the binary quotient number/significance is not an integer
+DecPhases == {"C"}
+DecSigs == Signed({1, 2, 4, 6, 7, 30})
+
 \* quick: ~2e4 states
 MCSmallMax == 16
 MCGridStride == 333331
